@@ -3,6 +3,7 @@
 from __future__ import annotations
 
 import ast
+import re
 import itertools
 
 from ..engine import absint
@@ -124,6 +125,7 @@ def _check_main(run, P):
     run.do(_sweeps, run, P)
     run.do(_mapper, run, P)
     run.do(_kind_attrs, run, P)
+    run.do(_sweep_raises, run, P)
     run.do(_pairing, run, P)
 
     f = P.func(f"{DATA}.unify")
@@ -367,6 +369,27 @@ def _worklist(run, P):
                      "start of every sweep",
            why="an aliased list emptied by the first sweep makes every later sweep "
                "process nothing: a kind computed from a partial sum is never corrected")
+    # ... and holds every statement: what fills it filters nothing out
+    if pops:
+        q = pops[0].func.value.id
+        fills = [x for x in ast.walk(outer) if isinstance(x, ast.Call)
+                 and isinstance(x.func, ast.Attribute) and x.func.attr in ("extend", "append")
+                 and dotted(x.func.value) == q] + [
+                 s_.value for s_ in outer.body if isinstance(s_, ast.Assign)
+                 and any(isinstance(t, ast.Name) and t.id == q for t in s_.targets)]
+        filt = [c for x in fills for c in ast.walk(x)
+                if isinstance(c, (ast.GeneratorExp, ast.ListComp)) and any(g_.ifs for g_ in c.generators)]
+        guarded_fill = [x for x in fills if isinstance(x, ast.Call) and any(
+            isinstance(i_, ast.If) and any(y is x for b in i_.body + i_.orelse for y in ast.walk(b))
+            for i_ in ast.walk(outer)
+            if not any(isinstance(y, ast.Call) and isinstance(y.func, ast.Attribute)
+                       and y.func.attr == "pop" for y in ast.walk(i_)))]
+        run.ob("C14.fixpoint", F, filt[0] if filt else outer, not filt and not guarded_fill,
+               construct="every statement of every phase enters the work list of every sweep"
+                         + (f" (filtered: {norm(filt[0], 60)})" if filt else ""),
+               why="a statement that is left out of later sweeps keeps the kind it computed "
+                   "from provisional operand kinds: the table then depends on the order in "
+                   "which the statements were first seen")
     fails = [n for n in g.nodes if n.kind == "stmt" and isinstance(n.ast, ast.Raise)
              and n.ast.exc is not None and "RuntimeError" in ast.unparse(n.ast.exc)
              and _inside(outer, n.ast)]
@@ -558,6 +581,44 @@ def _kind_attrs(run, P):
                        "(UnableToInferKind) lets the next sweep see the corrected kind")
     if n == 0:
         raise AnalysisError("KindInferenceMapper: no <kind>.is_real_valued access found")
+
+
+def _sweep_raises(run, P):
+    """Inside the sweeps of the kind finder no error is raised on a path that tests a
+    kind: kinds are provisional until the sweeps are over."""
+    from .util import path_conditions
+    f = P.func(f"{DATA}.SymbolKindFinder.__call__")
+    loops = [n for n in f.node.body if isinstance(n, ast.While)]
+    if not loops:
+        raise AnalysisError("SymbolKindFinder.__call__: the sweep loop not found")
+    sweep = loops[0]
+    # names that hold a kind: results of the mapper or of a table lookup
+    kindy = set()
+    for x in ast.walk(sweep):
+        if isinstance(x, ast.Assign) and isinstance(x.value, ast.Call):
+            d = dotted(x.value.func) or ""
+            if d.split(".")[0] in ("kim",) or d.endswith(".get") and "result" in d \
+                    or d.endswith("get_result_kinds"):
+                for t in x.targets:
+                    for z in ast.walk(t):
+                        if isinstance(z, ast.Name):
+                            kindy.add(z.id)
+    n = 0
+    for r in ast.walk(sweep):
+        if not isinstance(r, ast.Raise) or r.exc is None:
+            continue
+        n += 1
+        conds = path_conditions(f.node, r)
+        on_kind = sorted(t for t, _pol in conds if any(
+            re.search(rf"\b{re.escape(k)}\b", t) for k in kindy))
+        run.ob("C14.provisional", f, r, not on_kind,
+               construct=f"sweep: {norm(r)[:50]} is raised on no path that tests a kind"
+                         + (f" (tests {on_kind[0][:50]})" if on_kind else ""),
+               why="during a sweep a variable may still carry the kind of a partial sum; an "
+                   "error raised on it aborts inference for some statement orders and not "
+                   "for others")
+    if n < 2:
+        raise AnalysisError("SymbolKindFinder.__call__: raise statements of the sweep not found")
 
 
 def _inside_body(ifnode, node):
